@@ -148,6 +148,8 @@ def run_weak(chk, spec):
 		"pluck": lambda: v.pluck(0),
 		"new": lambda: Vector.new(w, 3),
 		"new-typesafe": lambda: Vector.new(w, 2, typesafe=True),
+		"new-none-typesafe": lambda: Vector.new(None, n or 1, typesafe=True),
+		"new-none": lambda: Vector.new(None, n or 1),
 		"isinstance": lambda: v.isinstance(int),
 		"compare": lambda: v == w,
 		"matmul-table": lambda: Table([v, v]) @ Vector([1, 2]),
@@ -300,7 +302,7 @@ RUNNERS = {"rows": run_rows, "unusual": run_unusual, "weak": run_weak, "assign":
 WEAK_OPS = ["radd-scalar", "radd-list", "rsub-scalar", "rmul-scalar", "rtruediv", "rpow", "add-wider-scalar", "add-wider-vector", "neg", "pos", "abs", "invert",
 	"lshift-wider", "lshift-none", "lshift-str", "lshift-list-mixed", "lshift-vector", "rlshift", "cast-str", "cast-float", "cast-int", "cast-bool", "cast-callable", "cast-date-from-iso", "cast-datetime-from-iso", "cast-date-of-dates", "new-empty", "new-empty-typesafe",
 	"fillna-same", "fillna-wider", "fillna-none", "fillna-integral-wider", "lshift-vector-none", "lshift-vector-same", "and-int", "or-vector", "xor-list",
-	"new-equal-narrower-first", "agg-stdev", "win-stdev", "dropna", "isna", "unique", "sort", "to_object", "T", "slice", "mask", "pluck", "new", "new-typesafe", "isinstance",
+	"new-equal-narrower-first", "agg-stdev", "win-stdev", "dropna", "isna", "unique", "sort", "to_object", "T", "slice", "mask", "pluck", "new", "new-typesafe", "new-none-typesafe", "new-none", "isinstance",
 	"compare", "matmul-table", "table-sum", "table-max", "table-mean"]
 
 
